@@ -13,7 +13,7 @@ single-statement programs loop(try(..)) that contain a break/continue (leaving a
 loop[try[s; break|continue] except/finally: pass; s'] and the complete family of a break/continue inside TWO nested
 try/finally blocks in a loop (while: try: [try: a; break|continue finally: b]; c finally: d, with a, b, c, d over
 {x = 1, del x, read x, pass}); thorough adds
-all 4-node programs over {assign, del, read} x {while, for, try-except, try-finally, try-except-as-x, match}.  Every
+all 3-node programs over {assign, read, closure read} and all programs of <= 2 nodes over every atom.  Every
 program is generated with and without an `x = 1` prologue and ends with an epilogue that probes the final binding
 state of x (bare `x` statement and a call argument) and of y under try/except.  Every branch, loop count (0/1/2) and conditional raise reads its own digit of
 the input tuple and every function is called on ALL digit vectors.
@@ -35,14 +35,14 @@ LEVEL_TEXT = ('Every function body of the grammar {x=1, del x, read x; thorough:
               'comprehension read; break/continue under a condition in loops} nested in {if, if-else, while[-else], for x[-else] (range and '
               'sequence), try-except, try-except-as-x, try-finally, try-except-else-finally, with (plain/suppressing/as x), '
               'match (literal/wildcard/capture x/sequence/class patterns)} with <= 3 nodes (plus the 4-node loop(try(break/continue)) '
-              'programs; thorough: plus 4 nodes over a reduced alphabet), nesting <= 2, '
+              'programs; thorough: plus closure reads in 3-node programs and all atoms in <= 2-node programs), nesting <= 2, '
               'try bodies interleaved with conditional raises at every position, with and without an initial binding of x, is compiled with error_on_uninitialized on and off and called on '
               'ALL digit vectors (every branch taken/not taken, every loop run 0/1/2 times); the ordered log of completed '
               'atoms with the values read, the exception type and a final probe of x and y must equal CPython; every '
               'compile-time "referenced before assignment" rejection is checked against CPython (the flagged site never '
               'completes on any input); in the default configuration the accepted 3-node programs are compiled but not executed '
               '(same C as in the lenient build).')
-LEVEL_NOTE = ('Bounded program size (nodes <= 3, quick; reduced-alphabet size 4 in thorough), two variables, loops run at most '
+LEVEL_NOTE = ('Bounded program size (nodes <= 3 plus the listed 4/5-node families), two variables, loops run at most '
               'twice.  Not generated because Cython rejects them by documented design: del (explicit or the implicit one of '
               '`except .. as x`) of a variable referenced by a nested def/lambda.  Not generated: def inside a match case '
               '(separate compiler defect, does not build; reported under C31).  For rejected functions the oracle is the '
@@ -60,7 +60,7 @@ _INFO = {}     # program tag -> {site id: path string}
 
 
 def _family(tier):
-    progs = gen.programs(3, atoms=('A', 'D', 'R') if tier == 'quick' else gen.ATOMS_CORE + gen.ATOMS_EXTRA)
+    progs = gen.programs(3, atoms=('A', 'D', 'R'))
     seen = set(progs)
     # break / continue out of a try statement inside a loop needs 4 nodes: all such single-statement programs
     for p in gen.programs(4, top_len=1, inner_len=2, atoms=('A', 'D', 'R'), forms=('wh', 'forx', 'te', 'tf')):
@@ -97,8 +97,12 @@ def _family(tier):
                                 seen.add((init, prog))
                                 progs.append((init, prog))
     if tier != 'quick':
-        for p in gen.programs(4, top_len=2, inner_len=2, atoms=('A', 'D', 'R'), forms=('wh', 'forx', 'te', 'tf', 'tex', 'ms')):
+        # thorough (bounded so that it finishes in well under an hour on a shared machine): closure reads over the 3-node
+        # programs and every extra atom (y = x, x = call(), bare x, conditional raise/return, lambda, comprehension) in the
+        # programs of <= 2 nodes
+        for p in gen.programs(3, atoms=('A', 'R', 'F')) + gen.programs(2, atoms=gen.ATOMS_CORE + gen.ATOMS_EXTRA):
             if p not in seen:
+                seen.add(p)
                 progs.append(p)
     # def inside a match case does not build at all (C-level error; separate defect, see C31)
     return [(i, p) for i, p in progs if not _def_in_match(p)]      # (def inside match: repaired upstream meanwhile; kept out for stability of the family)
@@ -232,6 +236,8 @@ def _slot(path):
     parts = str(path).split('/')
     if len(parts) < 2:
         return parts[0]
+    if any(c in ('tf.1', 'tfp.1', 'teef.3') for c in parts[:-1]):
+        return 'finally-body'        # anywhere inside a (duplicated) finally clause, however deeply nested
     inner = parts[-2]
     if inner in _SLOT:
         return _SLOT[inner]
